@@ -108,6 +108,8 @@ type vfSim struct {
 	pct       bool           // priority scheduling instead of uniform choice
 	prio      map[string]int // event key -> priority
 	ticks     bool           // allow clock ticks when nothing is eligible
+	holdKey   string         // a hook waiter with exactly this key is only released when holdFn says so (a request that stays
+	holdFn    func() bool    // in its worker while a long pipeline builds up behind it)
 	sendProbe func() bool    // if set, cc.send waiters are released only when this probe of the connection's write lock succeeds
 	start     time.Time
 }
@@ -143,7 +145,12 @@ func vfHook(site string, key uint64) {
 		s.park(fmt.Sprintf("h:%s:%010d", site, key), s.sendProbe)
 		return
 	}
-	s.park(fmt.Sprintf("h:%s:%010d", site, key), nil)
+	k := fmt.Sprintf("h:%s:%010d", site, key)
+	if k == s.holdKey && s.holdFn != nil {
+		s.park(k, s.holdFn)
+		return
+	}
+	s.park(k, nil)
 }
 
 func vfLockHook(site string, key uint64, try func() bool) {
@@ -345,7 +352,7 @@ func (s *vfSim) step(filter func(key string) bool) bool {
 		s.mu.Unlock()
 	}
 	// a fired non-probe event makes stale lock waiters eligible again
-	if !strings.HasPrefix(e.key, "h:f.lock") && !strings.HasPrefix(e.key, "h:cc.mu") && !(s.sendProbe != nil && strings.HasPrefix(e.key, "h:cc.send")) {
+	if !strings.HasPrefix(e.key, "h:f.lock") && !strings.HasPrefix(e.key, "h:cc.mu") && e.key != s.holdKey && !(s.sendProbe != nil && strings.HasPrefix(e.key, "h:cc.send")) {
 		s.mu.Lock()
 		for _, o := range s.parked {
 			o.stale = false
